@@ -16,7 +16,7 @@ MEM_EVENTS = ('mismatched-deallocation',)
 
 def jobs(tier, seed):
     out = []
-    for j in c01.jobs(tier, seed):
+    for j in [x for x in c01.jobs(tier, seed) if x.get('name') != 'hist']:
         if j['cfg']['pad'] < 0 or j['cfg']['pad'] % 64 == 0: out.append(dict(j, family='build-save-load'))
     for j in c04.jobs(tier, seed):
         if tier == 'quick' and j['name'] in ('labels_more', 'desc255'): continue
